@@ -39,7 +39,7 @@ seeded changes and which check catches which in §11.
      rewritten only by a fixed, logged list of token-level rules (§2.2), with contracts merged in from side-car files in
      `/verif/contracts/`. 21 units, ≈ 60 extracted items (functions, closures, types), ≈ 330 verified functions and lemmas (Verus's "verified"
      count) carrying ≈ 650 contract clauses, 1–4 s per unit.
-  2. **Kani, loop-free / full domain** (complete): `ch_width(c) <= c.len_utf8()` for every `char`, both feature sets (K1).
+  2. **Kani, loop-free / full domain** (complete): `ch_width(c) <= c.len_utf8()` for every `char`, both feature sets (K1); the float-exactness facts C05's one-line argument uses, for every pair of `usize` operands (K3).
   3. **Kani, bounded**: `wrap_first_fit` with bit-precise IEEE-754 floats, 3 fragments (K2, thorough tier of C07) — labelled *bounded*.
   4. **Bounded exhaustive contract checking (BEC)**: the same contracts in executable form, evaluated on the real crate
      (linked natively from `/repo`, both feature sets) for *every* input of a stated small scope plus seeded random
@@ -73,6 +73,7 @@ seeded changes and which check catches which in §11.
   | U23 | `optimal_fit::LineNumbers::{new, get}` (RefCell memo, rewrite R17) | terminates, no panic, returns the number of back-pointer hops — for every table of smawk's shape | C03, C06, C04 |
   | U22 | `options.rs`: `Options::new`, `From<&Options>`, `From<usize>`, the eight setters; `LineEnding::as_str` | the by-reference conversion copies every option unchanged; documented defaults; each setter changes exactly its field; `as_str` is `"\\r\\n"` / `"\\n"` | C09, C08, C02, C04 |
   | K1 | `core::ch_width` | `ch_width(c) <= c.len_utf8()` for all 1,112,064 scalar values (Kani, loop-free) | C10, C05, C04 |
+  | K3 | `Word::width()` (`usize as f64`) and f64 `+`, `>` | `a + b < 2^53` implies `a as f64 + b as f64 == (a + b) as f64`; `a <= b` implies `!(a as f64 > b as f64)`; `0 as f64 == 0.0`; 64-bit `usize` — the A16 axioms of U17, all `usize` operands (Kani, loop-free, bit-precise) | C05 |
 
 * **Genuine defects found and repaired** (five `fix:` commits in `/repo`, §5): F1 (C02), F2 (C08), F5 (C20/C04) were
   convicted by Verus obligations on the pinned text *and* by BEC; F3 (C11) and F4 (C18) by BEC. Six further findings
@@ -81,7 +82,7 @@ seeded changes and which check catches which in §11.
   statements (C09 independence, C13 end to end, C14, the round trip of C15/C16, agreement of `fill_inplace` with `wrap`,
   C08's second sentence), the real
   tables of `unicode-linebreak` / `unicode-width` / `smawk` behind the assumed shapes.
-* **Robustness of the machinery** (§8, §11): 133 seeded property-breaking changes that compile and pass the upstream suite
+* **Robustness of the machinery** (§8, §11): 148 seeded property-breaking changes that compile and pass the upstream suite
   (5 reverted fixes + 128 from independent sub-agents in eight waves) are all reported; 25 behaviour-preserving refactors
   raise no alarm; every unit verifies under 8 different SMT seeds; the unchanged tree passes all 20 checks in both tiers.
 """)
@@ -119,7 +120,7 @@ w("""### 2.3 Back ends
   deletes the copy and its `target/`. No commit to `/repo` is needed (`MANIFEST.hooks`: no source commits; guards are the
   compiler-provided `kani` cfg and upstream's existing `--cfg fuzzing`). **K1** `ch_width(c) <= c.len_utf8()`,
   `c: char = kani::any()`, loop-free, both feature sets, with a `should_panic` reachability twin — complete; quick tier of
-  C04, C05, C10 (2–10 s). **K2** `wrap_first_fit`, 3 fragments with quarter-integer widths < 4, two line widths < 8: U1's
+  C04, C05, C10 (2–10 s). **K3** the three float facts that U17 states as axioms (A16), over symbolic `usize` operands, with the conversion taken from the real `Fragment` accessor and a `should_panic` twin that drops the 2^53 bound — complete; quick tier of C05 (≈ 80 s, almost all of it the 64-bit adder). **K2** `wrap_first_fit`, 3 fragments with quarter-integer widths < 4, two line widths < 8: U1's
   postconditions under real IEEE semantics — *bounded*, ≈ 10 min / 13 GB, thorough tier of C07. (The planned K4 for the
   SMAWK call shape was replaced by the BEC contract `A6.smawk.call_shape` on the real `smawk` crate.)
 * **BEC** (`/verif/bec`, `textwrap = { path = "/repo" }`, built offline with `--cfg fuzzing`, release profile with
@@ -166,8 +167,8 @@ w("""### 2.3 Back ends
 
 ### 2.6 Cost
 
-quick (per property): its Verus units in parallel (1–4 s each) + its BEC contracts at the quick scope + K1 where listed:
-2–17 s per property on 16 cores (BEC binaries cached under `/verif/bec/target*`, rebuilt when `/repo` changes).
+quick (per property): its Verus units in parallel (1–4 s each) + its BEC contracts at the quick scope + K1 / K3 where listed:
+2–27 s per property on 16 cores (C05: ≈ 90 s because of K3) (BEC binaries cached under `/verif/bec/target*`, rebuilt when `/repo` changes).
 thorough: the thorough scopes and 2 M random cases (<= ~100 s) + K2 for C07 (≈ 10 min). Generated unit files and Kani
 copies live in `mktemp -d` directories outside `/repo` and `/verif` and are removed on exit.
 
@@ -302,6 +303,15 @@ repairs before they were committed.
   statements / conjuncts / declarations, flipped comparisons, inverted `if/else`, expanded `+=`, literal for const,
   `f64::max` call form): **0 false alarms**, 23 verify, 2 undecided (`f64::max(a, b)` call form has no rule; an inverted
   `if/else` whose both branches carry annotations loses an anchor).
+* **Independent refactors** (`tools/harmless2.py`, `harmless/`: 12 behaviour-preserving refactors of 15–35 changed lines each,
+  written by sub-agents that saw only the source file and were asked for an ordinary maintainer's tidy-up — renamed locals,
+  loops turned into `find`/`matches!`, hoisted values, extracted helpers, inverted branches; every public function of the crate
+  is touched by at least one), each applied to `/repo` and run against **all 20 quick checks**: **0 false alarms**
+  (`harmless/RESULTS.md`). The price of annotating in place shows here: every one of them leaves the Verus units that extract
+  the refactored function *undecided* (exit 2: an invariant names a local that was renamed, or the code an annotation was
+  anchored to was restructured) until the side-car is re-anchored (`vx.py derive` after adjusting the names); the bounded
+  contracts of the same property still ran and passed on the refactored code, and every property whose units do not touch the
+  refactored function still exits 0. An *undecided* is reported as such — never as a violation, never as a pass.
 * **SMT-seed stability** (`tools/stability.py`): all 21 units verify under Z3 random seeds 1–8 (max rlimit 17 M for U5 and
   U11). U1 was restructured around an opaque state predicate with step lemmas after it failed under two seeds; a U11
   lemma was split in three for the same reason.
@@ -342,12 +352,13 @@ the property states.
 
 ## 11. Seeded changes and what catches them
 
-`seeded/` holds 133 changes that compile, pass the upstream suite in both feature sets, and break a property: the 5
-reverted fixes and 128 produced by independent sub-agents given **only** the property text and a scratch worktree (wave 1–2:
+`seeded/` holds 148 changes that compile, pass the upstream suite in both feature sets, and break a property: the 5
+reverted fixes and 143 produced by independent sub-agents given **only** the property text and a scratch worktree (wave 1–2:
 two per property; wave 3: cooperating edits / indirect helpers / wrong fast paths; wave 4–5: changes that need something
 specific to manifest, avoiding the most obvious single-token edits; wave 6: with a hint which file to change; wave 7: with the
 ideas that earlier waves over-used forbidden (ASCII width shortcuts, `trim_end()`, byte lengths of indents, early return in `refill`);
-wave 8: changes that only show with a non-default option value or feature set — all 13 reported without any strengthening). Each was confirmed by `tools/seedverify.sh` (patch applies; suite passes in both feature sets;
+wave 8: changes that only show with a non-default option value or feature set — all 13 reported without any strengthening;
+wave 9: 15 more with a longer list of forbidden ideas — again all reported as the checks stood). Each was confirmed by `tools/seedverify.sh` (patch applies; suite passes in both feature sets;
 its demonstration fails with the patch and passes without). `tools/seedtest.py` applies each to `/repo`, runs the checks
 of the properties it breaks, and undoes it; `seeded/RESULTS.json` is its output and **`seeded/RESULTS.md` the full table**
 (seed, property, files changed, Verus obligations failed, BEC contracts failed, undecided units, verdict).
@@ -371,9 +382,9 @@ Misses on first contact and what was strengthened (never by weakening a check):
 | 7 | w7_C15_A (`unfill` stops measuring lines once the common indent is empty) | round-trip paragraphs had at most three words in the quick tier, so never four lines | a pass over fixed paragraphs of 6–8 words (widest line first / last / in the middle) |
 
 **Verus on its own** (`tools/seedverus.py`, `seeded/VERUS.json`: each change applied to a scratch copy, only the Verus units run):
-a Verus obligation rejects 42 of the 77 changes; the others end *undecided* in Verus (a new construct without a spec, a
+a Verus obligation rejects 66 of the 148 changes; the others end *undecided* in Verus (a new construct without a spec, a
 loop rewritten so that a rewrite rule no longer applies, a lost anchor) or touch code whose contract does not see them
-(`ch_width`'s table — decided by the exhaustive scalar enumeration and Kani K1). Three things raised that share from 29:
+(`ch_width`'s table — decided by the exhaustive scalar enumeration and Kani K1). Three things raised that share (from 29 to 42 of the first 77 changes):
 (i) specs for the std functions such edits typically reach for (`str::trim_end` / `trim_start` / `trim`, `char::is_ascii`,
 `u8::is_ascii_whitespace`, `String::with_capacity`; `prelude/std_more.vrs`) — seven seeds replace
 `trim_end_matches(' ')` by `trim_end()`; (ii) the precondition on the line breaker that, with `break_words`, a first line
